@@ -176,7 +176,7 @@ impl BitAnd for FaceAttrs {
 
 impl BitAndAssign for FaceAttrs {
     fn bitand_assign(&mut self, rhs: Self) {
-        self.bits &= rhs.bits
+        *self = *self & rhs
     }
 }
 
@@ -197,7 +197,7 @@ impl BitOr for FaceAttrs {
 
 impl BitOrAssign for FaceAttrs {
     fn bitor_assign(&mut self, rhs: Self) {
-        self.bits |= rhs.bits
+        *self = *self | rhs
     }
 }
 
@@ -218,7 +218,7 @@ impl BitXor for FaceAttrs {
 
 impl BitXorAssign for FaceAttrs {
     fn bitxor_assign(&mut self, rhs: Self) {
-        self.bits ^= rhs.bits
+        *self = *self ^ rhs
     }
 }
 
